@@ -76,6 +76,7 @@ type Obligation struct {
 	smallModel  bool
 	allTimeouts bool
 	Retried     bool // discharged only by the calm retry after timeouts
+	CaseSplit   int  // discharged as a complete case analysis over this many cases (0: single query)
 }
 
 type inputSym struct {
